@@ -20,6 +20,15 @@ CLAIMED["C07"] = ("4 C07", "Seeded simulation of long and adversarial query hist
 CLAIMED["C04"] = ("4 C04", "Seeded simulation through the randomness seam: the object carries a label axis and every normal draw is answered with unit label vectors, so each returned value is its exact coefficient vector over independent N(0,1) sources; the Gram matrix of all answers of a faulted query history is compared with the exact covariance of Brownian-motion functionals (incl. bridge with supplied W/H, cross-element independence). Davie/Foster: the Levy draw is forced to 0 and to every basis tensor, recovering conditional mean and variance exactly. Exact oracle per run; coverage of histories is sampled.",
          "Assumes draws with different seeds are independent standard normals (torch generator, numpy SeedSequence trusted) and that W/H arithmetic is element-wise over leading axes; float64; 1e-9 relative with exact-rational confirmation.",
          TECH + "; exact covariance (Gram matrix) through an owned randomness seam vs a Brownian covariance reference model")
+CLAIMED["C12"] = ("4 C12", "Trace checking of the real stepping loop against an executable loop model over seeded output-time schedules (on-grid, inside a step, several per step, 1 ulp either side of a grid point, gaps smaller/larger than dt; tensor or list): identical Brownian request trace for every schedule and equal to the model recurrence, grid outputs bit-identical to grid states, interior outputs equal to the linear interpolant, common times bit-identical, shape/dtype. No fault dimension of its own (the real-Brownian share runs with cache faults); claimed because the recording seam, stub peer and loop model decide it, not because it needs fault injection.",
+         "StubBrownian (stateless closed form) in ~80% of runs, real BrownianInterval in ~20%; interpolation to 1e-12 rel (f64)/1e-5 (f32); schedules sampled.",
+         TECH + "; trace refinement against a reference model of the fixed-step loop over sampled output schedules")
+CLAIMED["C13"] = ("4 C13", "Seeded simulation of checkpoint/restart: one-shot integration vs 1-8 chunks cut at PRNG-chosen grid points carrying only the returned (state, extra state), with crashes injected at the k-th drift / diffusion / Brownian call of a chunk (possibly mid-step) followed by restart from the last checkpoint; bit-exact comparison of final state, extra state, shared outputs and the concatenated surviving request trace. All solvers and noise types; stub and real Brownian motion (cache faults on).",
+         "Restart points on the step grid (property precondition); crash = exception from a peer; sampled cut/crash schedules.",
+         TECH + "; crash/restart equivalence against a one-shot reference execution, bit-exact")
+CLAIMED["C14"] = ("4 C14", "Seeded simulation of the adaptive controller under real and adversarial (scripted) error signals: invariants on the recorded trial schedule (contiguity, bounds, end exactly at ts[-1], dt_min, accept/reject rule in its weakest reading, shrinking on reject), bounded liveness via an analytic trial bound enforced by a deterministic call-event budget, and an independent value/decision oracle that re-executes the schedule with public non-adaptive single-step calls (recomputed RMS error norm, two-half-step values, interpolated outputs). The clause 'tightening tolerances reduces the true error' is not decided.",
+         "Preconditions dt >= dt_min and dt_min resolvable in the working dtype; stiffness kept inside the stability region at dt_min (a diverging scheme confirmed by re-execution is not judged); open known finding D7.",
+         TECH + "; controller schedule invariants + bounded liveness + re-execution reference model under adversarial error signal")
 NA = {}
 def main():
     checks = []
